@@ -564,13 +564,19 @@ def check_bson_size(chk, tier):
     from .. import cfg as C, guards as G
     rid = 'R07.bson.size'
     chk.rule(rid, 'BSON end_document/end_array compare the bytes consumed with the declared size exactly (pos != length -> size_mismatch): '
-                  'both closers must use the same exact comparison', floor=2)
+                  'every closer (a function that reports end_object or end_array) must use that exact comparison', floor=1)
     facts = F.load(['bson'], tier)
     n = 0
-    for name in ('end_document', 'end_array'):
-        fns = U.functions(facts, cls='basic_bson_parser', name=name)
-        chk.require(fns, 'basic_bson_parser::%s not found' % name)
-        for fn in U.one_per_inst(fns):
+    # the closers: the member functions that report end_object / end_array to the visitor (whatever they are called, one or two of them)
+    closers = {}
+    for fn in U.one_per_inst([f for f in U.functions(facts, cls='basic_bson_parser') if f.get('body') is not None]):
+        evs = set(A.callee_name(c) for c in A.walk_no_lambda(fn['body']) if A.is_call(c) and A.callee_name(c) in ('end_object', 'end_array') and 'visitor' in (c.get('cq') or ''))
+        if evs: closers[fn['q'] + ':%s' % fn['l']] = (fn, evs)
+    covered = set(e for fn, evs in closers.values() for e in evs)
+    chk.require({'end_object', 'end_array'} <= covered, 'basic_bson_parser: functions reporting end_object and end_array not found (%s)' % sorted(covered))
+    for fn, evs in closers.values():
+        name = fn['n']
+        for _ in (0,):
             chk.analysed(fn)
             g = C.CFG(fn['body'])
             found = None
@@ -596,7 +602,7 @@ def check_bson_size(chk, tier):
             else:
                 chk.fail(rid, site, fn['file'], nd.line, '%s checks the declared size with `%s` instead of an exact pos != length -> size_mismatch' % (name, A.text(nd.ast)[:60]),
                          {'function': fn['q']}, fn['q'])
-    chk.require(n >= 2, 'R07.bson.size: closers not found')
+    chk.require(n >= 1, 'R07.bson.size: closers not found')
 
 def check_decimal128_fields(chk, tier):
     """BSON decimal128: the text-to-bits and bits-to-text halves place the exponent field at the same bit positions."""
